@@ -123,6 +123,12 @@ CANONICAL = [
     ("reject", "same-cell-write", "for i in par(0, n):\n        x[0] = y[i]"),
     ("reject", "nested-racy", "for j in seq(0, 2):\n        for i in par(0, n):\n            x[0] = y[i]"),
     ("reject", "nested-in-else", "if n > 6:\n        pass\n    else:\n        for i in par(0, n):\n            x[i + 1] += x[i]"),
+    ("reject", "window-chain-shift",
+     "a = x[1:n + 2]\n    b = a[0:n]\n    for i in par(0, n):\n        b[i] = x[i] + 1.0"),
+    ("reject", "window-chain3-read-inner",
+     "a = x[0:n + 2]\n    b = a[1:n + 2]\n    c = b[0:n]\n    for i in par(0, n):\n        x[i] = c[i]"),
+    ("accept", "window-chain-same-cell",
+     "a = x[1:n + 2]\n    b = a[0:n]\n    for i in par(0, n):\n        b[i] = x[i + 1] + 1.0"),
     ("reject", "outer-par-racy", "for j in par(0, 2):\n        for i in par(0, n):\n            x[i] = y[i]"),
 ]
 
@@ -132,6 +138,108 @@ def canonical(uid=""):
     for k, (verdict, name, body) in enumerate(CANONICAL):
         main = "can%s_%d" % (uid, k)
         yield verdict, name, HEADER + "\n@proc\ndef %s(%s):\n    %s\n" % (main, sig, body), main
+
+
+# ============================================================================ chains of windows before a par loop
+# x : R[2 * n + 4].  A chain of 2 or 3 WindowStmts placed BEFORE the parallel loop (same block or an enclosing
+# block) ends in a window w with  w[i] == x[i + off];  the loop body touches the same cells through w and through
+# the root x (or an intermediate window, or the end of a second chain).  off = 1 makes iterations i and i+1 collide;
+# the controls use the same cell (off matched) or disjoint halves (off = n + 2).
+WIN_CHAINS = [
+    # (name, statements, innermost window, total offset (string), intermediate (name, offset) or None)
+    ("d2a", ["a = x[1:n + 2]", "b = a[0:n]"], "b", "1", ("a", "1")),
+    ("d2b", ["a = x[0:n + 2]", "b = a[1:n + 1]"], "b", "1", ("a", "0")),
+    ("d3a", ["a = x[0:n + 3]", "b = a[1:n + 2]", "c = b[0:n]"], "c", "1", ("b", "1")),
+    ("d3b", ["a = x[1:n + 3]", "b = a[0:n + 1]", "c = b[0:n]"], "c", "1", ("a", "1")),
+    ("d3c", ["a = x[0:n + 3]", "b = a[1:n + 3]", "c = b[1:n + 1]"], "c", "2", ("b", "1")),
+    ("half2", ["a = x[n + 2:2 * n + 4]", "b = a[0:n]"], "b", "n + 2", ("a", "n + 2")),
+    ("half3", ["a = x[2:2 * n + 4]", "b = a[n:2 * n + 2]", "c = b[0:n]"], "c", "n + 2", ("b", "n + 2")),
+]
+
+
+def _root(v, off, shift=0):
+    """x index of w[v] shifted by `shift` (as source text)"""
+    try:
+        k = int(off) + shift
+        return v if k == 0 else "%s + %d" % (v, k)
+    except ValueError:
+        return "%s + %s" % (v, off) if shift == 0 else "%s + %s + %d" % (v, off, shift)
+
+
+def winchain_bodies(w, off, inter, v="i"):
+    """(tag, race_free, statements): accesses through the innermost window w (w[v] is x[v+off]) and through the
+    root / an intermediate window"""
+    same = "x[%s]" % _root(v, off)            # the very cell w[v]
+    prev = "x[%s]" % _root(v, off, -1)        # the cell of iteration v-1
+    nxt = "x[%s]" % _root(v, off, 1)          # the cell of iteration v+1
+    out = [
+        ("Winner-Rroot", False, ["%s[%s] = %s + 1.0" % (w, v, prev)]),
+        ("Rinner-Wroot", False, ["%s = %s[%s]" % (prev, w, v)]),
+        ("Pinner-Rroot", False, ["%s[%s] += 1.0" % (w, v), "y[%s] = %s" % (v, prev)]),
+        ("Rinner-Proot", False, ["%s += 1.0" % prev, "y[%s] = %s[%s]" % (v, w, v)]),
+        ("Winner-Wroot", False, ["%s[%s] = 1.0" % (w, v), "%s = 2.0" % nxt]),
+        ("Pinner-Proot", False, ["%s[%s] += 1.0" % (w, v), "%s += 2.0" % nxt]),
+        ("same-cell", True, ["%s[%s] = %s + 1.0" % (w, v, same)]),
+        ("same-cell-reduce", True, ["%s += %s[%s]" % (same, w, v)]),
+    ]
+    if inter is not None:
+        iw, ioff = inter
+        try:
+            d = int(off) - int(ioff)         # w[v] == iw[v + d]
+            cell_prev = "%s[%s]" % (iw, v if d - 1 == 0 else "%s + %d" % (v, d - 1))
+            if d - 1 >= 0:
+                out.append(("Winner-Rinter", False, ["%s[%s] = %s + 1.0" % (w, v, cell_prev)]))
+        except ValueError:
+            pass
+    return out
+
+
+def winchains(uid=""):
+    """yields (tag, race_free_by_construction, source, main)"""
+    sig = "n: size, x: R[2 * n + 4], y: R[n + 2]"
+    k = 0
+    for (cname, wins, w, off, inter) in WIN_CHAINS:
+        halves = cname.startswith("half")
+        for (btag, rf, body) in winchain_bodies(w, off, inter):
+            if halves:
+                # disjoint halves: w lives in x[n+2 ..), the root accesses stay in x[0 .. n+1]: race-free
+                if btag.startswith("same") or btag == "Winner-Rinter":
+                    continue
+                body = [l.replace("x[i + %s + -1]" % off, "x[i]").replace("x[i + %s + 1]" % off, "x[i + 1]") for l in body]
+                assert not any(off in l for l in body), body
+                rf = True
+            for pos in ("top", "inseq", "inif", "winouter", "sched"):
+                k += 1
+                main = "wch%s_%d" % (uid, k)
+                ind = "    "
+                lines = []
+                sched = ""
+                if pos == "top":
+                    lines = wins + ["for i in par(0, n):"] + [ind + l for l in body]
+                elif pos == "inseq":      # windows in the enclosing block, loop inside a seq loop
+                    lines = wins + ["for j in seq(0, 2):", ind + "for i in par(0, n):"] + [ind * 2 + l for l in body]
+                elif pos == "inif":       # first window outside, the rest inside the if, before the loop
+                    lines = wins[:1] + ["if n > 1:"] + [ind + l for l in wins[1:]] + [ind + "for i in par(0, n):"] \
+                        + [ind * 2 + l for l in body]
+                elif pos == "winouter":   # all windows outside, loop in the else branch
+                    lines = wins + ["if n > 6:", ind + "pass", "else:", ind + "for i in par(0, n):"] \
+                        + [ind * 2 + l for l in body]
+                else:                     # written seq, made parallel by parallelize_loop
+                    lines = wins + ["for ip in seq(0, n):"] + [ind + l for l in _rename(body, "i", "ip")]
+                    sched = "%s = parallelize_loop(%s, %s.find_loop('ip'))\n" % (main, main, main)
+                src = HEADER + "\n@proc\ndef %s(%s):\n%s\n\n%s" % (main, sig, "\n".join(ind + l for l in lines), sched)
+                yield ("%s:%s:%s" % (cname, btag, pos), rf, src, main)
+    # two different chains ending in windows one cell apart
+    for pos_par in ("par", "sched"):
+        k += 1
+        main = "wch%s_%d" % (uid, k)
+        lv = "i" if pos_par == "par" else "ip"
+        mode = "par" if pos_par == "par" else "seq"
+        lines = ["a = x[1:n + 2]", "b = a[0:n]", "c = x[0:n + 2]", "d = c[0:n]",
+                 "for %s in %s(0, n):" % (lv, mode), "    b[%s] = d[%s] + 1.0" % (lv, lv)]
+        sched = "" if pos_par == "par" else "%s = parallelize_loop(%s, %s.find_loop('ip'))\n" % (main, main, main)
+        src = HEADER + "\n@proc\ndef %s(%s):\n%s\n\n%s" % (main, sig, "\n".join("    " + l for l in lines), sched)
+        yield ("twochains:Winner-Rinner:%s" % pos_par, False, src, main)
 
 
 # ============================================================================ random modules
